@@ -131,4 +131,28 @@ theorem pkg_vars_initialised_by_call : Facts.pkgVarsInitialisedByCall = ["defaul
     value: nothing concurrent imports of key files could share (C20) -/
 theorem sub_package_vars : Facts.subPackageVars = ["sexp.snil=literal"] := by decide
 
+/-! source text of small decision functions (go/printer, white space collapsed): the Lean counterparts were
+    written from exactly this text; any rewrite — also a harmless one — has to be reviewed and re-pinned -/
+theorem src_Conversation_SetOurKeys : Facts.src_Conversation_SetOurKeys = "{ c.ourKeys = ourKeys }" := rfl
+theorem src_Conversation_injectMessage : Facts.src_Conversation_injectMessage = "{ c.injections.messages = append(c.injections.messages, vm) }" := rfl
+theorem src_Conversation_maybeHeartbeat : Facts.src_Conversation_maybeHeartbeat = "{ if err != nil { return nil, nil, err } tsExtra, e := c.potentialHeartbeat(plain) return plain, compactMessagesWithHeader(toSend, tsExtra), e }" := rfl
+theorem src_Conversation_processTLVs : Facts.src_Conversation_processTLVs = "{ var retTLVs []tlv for _, t := range tlvs { mh, e := messageHandlerForTLV(t) if e != nil { continue } toSend, err := mh(c, t, x) if err != nil { return nil, err } if toSend != nil { retTLVs = append(retTLVs, *toSend) } } return retTLVs, nil }" := rfl
+theorem src_Conversation_rotateKeys : Facts.src_Conversation_rotateKeys = "{ if err := c.keys.rotateOurKeys(dataMessage.recipientKeyID, c.rand()); err != nil { return err } c.keys.rotateTheirKey(dataMessage.senderKeyID, dataMessage.y) return nil }" := rfl
+theorem src_ExtractMPIs : Facts.src_ExtractMPIs = "{ current, mpiCount, ok := ExtractWord(d) if !ok { return nil, nil, false } if uint64(mpiCount) > uint64(len(current))/4 { return nil, nil, false } result := make([]*big.Int, int(mpiCount)) for i := 0; i < int(mpiCount); i++ { current, result[i], ok = ExtractMPI(current) if !ok { return nil, nil, false } } return current, result, true }" := rfl
+theorem src_decideFlagFrom : Facts.src_decideFlagFrom = "{ flag := byte(0x00) for _, t := range tlvs { if t.tlvType >= tlvTypeSMP1 && t.tlvType <= tlvTypeSMP1WithQuestion { flag = messageFlagIgnoreUnreadable } } return flag }" := rfl
+theorem src_defaultResendMessageTransform : Facts.src_defaultResendMessageTransform = "{ ret := make([]byte, 0, len(defaultResentPrefix)+len(msg)) ret = append(ret, defaultResentPrefix...) return append(ret, msg...) }" := rfl
+theorem src_extractDataMessageFlag : Facts.src_extractDataMessageFlag = "{ if len(msg) == 0 { return messageFlagNormal } return msg[0] }" := rfl
+theorem src_gt : Facts.src_gt = "{ return l.Cmp(r) == 1 }" := rfl
+theorem src_gte : Facts.src_gte = "{ return l.Cmp(r) != -1 }" := rfl
+theorem src_isExponent : Facts.src_isExponent = "{ return d != nil && d.Sign() > 0 && d.Cmp(q) < 0 }" := rfl
+theorem src_isGroupElement : Facts.src_isGroupElement = "{ return gte(n, g1) && lte(n, pMinusTwo) }" := rfl
+theorem src_keyManagementContext_checkMessageCounter : Facts.src_keyManagementContext_checkMessageCounter = "{ counter := k.counterHistory.findCounterFor(message.recipientKeyID, message.senderKeyID) theirNextCounter := binary.BigEndian.Uint64(message.topHalfCtr[:]) if theirNextCounter <= counter.theirCounter { return newOtrConflictError(\"counter regressed\") } counter.theirCounter = theirNextCounter return nil }" := rfl
+theorem src_lt : Facts.src_lt = "{ return l.Cmp(r) == -1 }" := rfl
+theorem src_lte : Facts.src_lte = "{ return l.Cmp(r) != 1 }" := rfl
+theorem src_macKeyHistory_addKeys : Facts.src_macKeyHistory_addKeys = "{ for _, k := range h.items { if k.ourKeyID == ourKeyID && k.theirKeyID == theirKeyID { return } } macKeys := macKeyUsage{ ourKeyID: ourKeyID, theirKeyID: theirKeyID, receivingKey: receivingMACKey, } h.items = append(h.items, macKeys) }" := rfl
+theorem src_otrV2_isGroupElement : Facts.src_otrV2_isGroupElement = "{ return mod(n, p).Sign() != 0 }" := rfl
+theorem src_otrV3_isGroupElement : Facts.src_otrV3_isGroupElement = "{ return isGroupElement(n) }" := rfl
+theorem src_policies_has : Facts.src_policies_has = "{ return int(*p)&int(c) == int(c) }" := rfl
+theorem src_policies_isOTREnabled : Facts.src_policies_isOTREnabled = "{ return p.has(allowV2) || p.has(allowV3) }" := rfl
+
 end Otr.FactsOk
